@@ -259,6 +259,8 @@ type Outcome struct {
 	// VarsChanged: what Execute did to the caller's VarMap (an input: callers keep and reuse it),
 	// apart from what the templates asked for through Runtime.LetGlobal; "" when untouched
 	VarsChanged string
+	Vars        jet.VarMap        // what was passed (nil in nil-variables mode)
+	VarsAfter   map[string]string // its snapshot right after the call
 }
 
 // varsSnapshot describes a VarMap well enough to notice entries that were removed, added or replaced.
@@ -405,7 +407,9 @@ func Exec(set *jet.Set, c Call, tag string) Outcome {
 	if xerr != nil {
 		o.Err = xerr.Error()
 	}
-	o.VarsChanged = varsDiff(before, varsSnapshot(vm))
+	o.VarsAfter = varsSnapshot(vm)
+	o.VarsChanged = varsDiff(before, o.VarsAfter)
+	o.Vars = vm
 	o.Out = string(w.Buf)
 	return o
 }
